@@ -11,4 +11,4 @@ nok=$(grep -cE '^[0-9]+: not ok' /tmp/ufw-baseline.$$ || true)
 tail -3 /tmp/ufw-baseline.$$
 rm -f /tmp/ufw-baseline.$$
 echo "tap ok=$ok not_ok=$nok"
-[ "$nok" = 0 ] && grep -q . /dev/null
+[ "$nok" = 0 ] && [ "$ok" -gt 0 ]
